@@ -320,6 +320,22 @@ func runC08(c *core.Ctx) {
 		}
 		if p.over {
 			cs.Check(err != nil && len(b) == 0, "silently-accepted/"+cell.name, det(nil))
+			// and a refused value leaves nothing behind: the very next Marshal of a small valid value
+			// of the same type (same goroutine, nothing in between) gives its reference octets
+			if p.pkt != nil {
+				k := gen.KindOf(p.pkt)
+				sib := gen.Packet(cs.R, k, gen.Opts{Small: true, NoBig: true})
+				if e, rerr := ref.Encode(sib, ref.Lib); rerr == nil {
+					sb, serr, span := gMarshal(sib)
+					cs.Eval(1)
+					cs.Count("after-refusal/" + k.String())
+					if span != "" {
+						cs.Fail("panic/Marshal", core.W{"value": vdump(sib), "panic": span})
+					} else if serr != nil || len(sb) != len(e.B) || firstDiff(sb, e.B, e.Mask) >= 0 {
+						cs.Fail("after-refusal/"+cell.name, core.W{"refused_value": fmt.Sprintf("%.400s", vdump(p.value)), "refusal": errStr(err), "next_value": vdump(sib), "marshal_hex": mon.Hex(sb, 200), "reference_hex": mon.Hex(e.B, 200), "error": errStr(serr)})
+					}
+				}
+			}
 			return
 		}
 		if !cs.Check(err == nil, "rejected-at-limit/"+cell.name, det(nil)) {
